@@ -24,6 +24,7 @@
   into a buffer at least 4 bytes larger than the bundle satisfies it (the buffer is cleared first).
 -/
 import RtoscModel.Proofs.BundleDecompose
+import RtoscModel.Proofs.BundleTerm
 namespace Rtosc.Osc
 open Rtosc
 
@@ -33,6 +34,29 @@ open Rtosc
 theorem messageLengthU_encode (e : Elem) (blk : Bytes) (hwf : e.WF) (hh : Elem.Holds blk e)
     (ht : Elem.Terminated blk e) : messageLengthU blk = .ok (Spec.encodeElem e).length :=
   messageLengthU_elem hwf hh ht
+
+/-- **messageLengthU_terminates** — the fuel lemma of the unbounded length walk (C07's
+    `length_terminates` for `len = -1`): on *every* block shorter than 2^32 bytes, well-formed or
+    not, the loops of `rtosc_message_length(msg, -1)` finish within the fuel the model gives them;
+    the bundle walk in particular, since fixes/C06-bundle-length-wrap.patch, moves `pos` strictly
+    forward (an element whose end is no `unsigned` position is answered with 0) and needs no size
+    hypothesis (`bundleLoopU_ne_hang`).  The result is a length or `.oob` (a read behind the block:
+    finding K4 and callers that pass something else than a packet), never "does not return". -/
+theorem messageLengthU_terminates (blk : Bytes) (h : blk.length < 4294967296) :
+    messageLengthU blk ≠ .hang :=
+  messageLengthU_ne_hang blk h
+
+/-- **bundle_terminates** — `rtosc_bundle` returns for arbitrary element blocks (each shorter
+    than 2^32 bytes): both passes over the elements measure them with
+    `rtosc_message_length(msg, -1)`, which returns. -/
+theorem bundle_terminates (buf : Bytes) (tt : UInt64) (blks : List Bytes)
+    (h : ∀ b ∈ blks, b.length < 4294967296) : bundle buf tt blks ≠ .hang :=
+  bundle_ne_hang buf tt blks h
+
+/-- an element block whose nested bundle has a size field 0xfffffffc (the unrepaired walk never
+    left it): measured as 0, `rtosc_bundle` writes an empty element and returns -/
+example : messageLengthU [35, 98, 117, 110, 100, 108, 101, 0, 0, 0, 0, 0, 0, 0, 0, 0, 255, 255, 255, 252,
+    47, 97, 0, 0, 44, 0, 0, 0, 0, 0, 0, 0] = .ok 0 := by decide +kernel
 
 /-- The full statement of "bundling any sequence of well-formed messages and bundles yields the
     bundle encoding": element blocks that merely *start* with the encodings.  False of the code
